@@ -1,4 +1,5 @@
 import MptModel.Impl.Encode
+import MptModel.Impl.Decode
 import MptModel.Spec.Cobs
 import Driver.Util
 namespace Driver.Codec
@@ -20,6 +21,12 @@ structure St where
   lastEnd : Nat := 0
   haveFrame : Bool := false
   lastMsg : List Byte := []
+  -- M: decoder state and guarded segments; S: the bytes as supplied and the start of the current frame
+  dst : DecState := {}
+  segs : List Seg := []
+  orig : List Byte := []
+  fstart : Option Nat := none
+  decReady : Bool := false
   deriving Inhabited
 
 def fillByte : Byte := 0xEE     -- new window bytes (the C driver memsets them)
@@ -82,8 +89,135 @@ def doPush (s : St) (bytes : List Byte) : St × String :=
     (s', encLine s!"ok n={o.ret}" o.st o.win (toString o.ret) alts)
   | x => ({ s with pending := bytes }, encLine "refused n=0" s.est s.win (resName x) alts)
 
+/-- "<align>:<hex>" -/
+def parseSeg (w : String) : Option Seg :=
+  match w.splitOn ":" with
+  | [a, h] =>
+    match a.toNat?, parseHex h with
+    | some a, some b => if a ≤ 15 then some (a, b) else none
+    | _, _ => none
+  | _ => none
+
+def parseSegs : List String → Option (List Seg)
+  | [] => some []
+  | w :: ws => do
+    let s ← parseSeg w
+    let r ← parseSegs ws
+    pure (s :: r)
+
+/-- put the first bytes of `bytes` back into the segment structure -/
+def resplit : List Seg → List Byte → List Seg
+  | [], _ => []
+  | (a, bs) :: rest, bytes =>
+    (a, bytes.take bs.length ++ bs.drop bytes.length) :: resplit rest (bytes.drop bs.length)
+
+def retName : DecRet → String
+  | .val n => toString n | .err e => e.name | .oob => "OOB" | .clobber => "CLOBBER"
+
+def decLine (s : St) (ret : DecRet) (call : Bool) (alts : String) : String :=
+  let st := s.dst
+  let store := flat s.segs
+  let total := s.orig.length
+  let unread := ((List.range (total - st.curr)).all fun i => store[st.curr + i]? == s.orig[st.curr + i]?)
+  let msg := match ret, st.msg with
+    | .val 1, some m => if call ∧ st.pos + m ≤ total then s!" msg={toHex ((store.drop st.pos).take m)}" else ""
+    | _, _ => ""
+  let part := if st.pos + st.len ≤ total ∧ st.len ≠ 0 then toHex ((store.drop st.pos).take st.len) else "-"
+  let m := match st.msg with | some m => toString m | none => "-1"
+  let segsHex := if s.segs.isEmpty then "-" else ",".intercalate (s.segs.map fun x => toHex x.2)
+  s!"R ret={retName ret}{msg} guards=ok unread={if unread then "ok" else "bad"} | C data={st.pos},{st.len},{m} part={part} | I ctx={st.ctx % 256},{st.ctx / 256} curr={st.curr} store={segsHex} | S {alts}"
+
+/-- the frame starting at `fstart` in the supplied bytes, if its delimiter has arrived -/
+def frameAt (orig : List Byte) (fstart : Nat) : Option (List Byte) :=
+  let rest := orig.drop fstart
+  match rest.findIdx? (· == 0) with
+  | some z => some (rest.take (z + 1))
+  | none => none
+
+/-- S for a decoder call: never a message other than the reference decoding of the current frame;
+    not delivering (need more data, or an error) is always allowed -/
+def decAlts (s : St) (peek : Bool) : String :=
+  let safe := "guards=ok unread=ok"
+  let quiet := " || ".intercalate (["0", "BadArgument", "BadValue", "BadOperation", "MissingData", "MissingBuffer"].map
+    fun r => s!"ret={r} {safe} ; *")
+  match s.fstart with
+  | none => "* ; *"
+  | some f =>
+    let deliver : List String :=
+      match frameAt s.orig f with
+      | none => []
+      | some frame =>
+        match s.codec with
+        | .cobs v => match dec v frame with
+          | some m => if peek then [] else [s!"ret=1 msg={toHex m} {safe} ; *"]
+          | none => []
+        | .command => match decCmd frame with
+          | some m => if peek then [s!"ret=1 {safe} ; *"] else [s!"ret=1 msg={toHex m} {safe} ; *"]
+          | none => []
+    " || ".intercalate (deliver ++ [quiet])
+
+def runDecoder (c : Codec) (st : DecState) (segs : List Seg) (peek : Bool) : DecOut :=
+  match c with
+  | .cobs v => if v.tail then decodeCobsR v st segs peek else decodeCobs v st segs peek
+  | .command => decodeCommand st segs peek
+
 def step (s : St) (w : List String) : St × String :=
   match w with
+  | "dec" :: "new" :: name :: segw =>
+    match Codec.ofName name, parseSegs segw with
+    | some c, some segs =>
+      if segs.length > 8 then (s, "bad-op") else
+      let s' : St := { codec := c, segs := segs, orig := flat segs, fstart := some 0, decReady := true }
+      (s', decLine s' (.val 0) false "* ; *")
+    | _, _ => (s, "bad-op")
+  | ["dec", "state", c, cu, p, l, m] =>
+    if !s.decReady then (s, "bad-op") else
+    match c.toNat?, cu.toNat?, p.toNat?, l.toNat?, m.toInt? with
+    | some c, some cu, some p, some l, some m =>
+      if m < -1 then (s, "bad-op") else
+      let msg := if m < 0 then none else some m.toNat
+      -- the spec follows the frames only from a fresh state (optionally with head room `curr`)
+      let fresh := c = 0 ∧ p = 0 ∧ l = 0 ∧ msg.isNone ∧ s.fstart = some 0 ∧ s.dst = {}
+      let s' := { s with dst := { ctx := c, curr := cu, pos := p, len := l, msg := msg },
+                         fstart := if fresh then some cu else none }
+      (s', decLine s' (.val 0) false "* ; *")
+    | _, _, _, _, _ => (s, "bad-op")
+  | ["dec", "append", dat] =>
+    match parseHex dat, s.segs.getLast? with
+    | some b, some last =>
+      let s' := { s with segs := s.segs.dropLast ++ [(last.1, last.2 ++ b)], orig := s.orig ++ b }
+      (s', decLine s' (.val 0) false "* ; *")
+    | _, _ => (s, "bad-op")
+  | ["dec", "seg", sw] =>
+    match parseSeg sw with
+    | some sg =>
+      if s.segs.length ≥ 8 then (s, "bad-op") else
+      let s' := { s with segs := s.segs ++ [sg], orig := s.orig ++ sg.2 }
+      (s', decLine s' (.val 0) false "* ; *")
+    | none => (s, "bad-op")
+  | ["dec", op] =>
+    if (op ≠ "run" ∧ op ≠ "peek") ∨ s.segs.isEmpty then (s, "bad-op") else
+    let peek := op = "peek"
+    let alts := decAlts s peek
+    let o := runDecoder s.codec s.dst s.segs peek
+    let fstart := match s.fstart, o.ret with
+      | some _, .val 1 => if peek then s.fstart else some o.st.curr
+      | some f, .err .BadValue => some (f + 1)
+      | x, _ => x
+    let s' := { s with dst := o.st, segs := resplit s.segs o.store, fstart := fstart }
+    (s', decLine s' o.ret true alts)
+  | ["dec", "size", n] =>
+    if !s.decReady then (s, "bad-op") else
+    match n.toNat?, s.codec with
+    | some n, .cobs v =>
+      let (r, st) := decodeQuery v s.dst n
+      -- a reset in mid-stream forgets the open block: the spec no longer follows the frames
+      let s' := { s with dst := st, fstart := if n = 0 then none else s.fstart }
+      (s', decLine s' r false "* ; *")
+    | some _, .command =>
+      let s' := { s with dst := {}, fstart := none }
+      (s', decLine s' (.val 0) false "* ; *")
+    | none, _ => (s, "bad-op")
   | ["enc", "new", name, cap] =>
     match Codec.ofName name, cap.toNat? with
     | some c, some n =>
